@@ -19,7 +19,8 @@ RULE = ("schemas built top-down to depth <= 4 with every combination of schema-l
         "random format, flat and nested) never override a variable but do set unbound fields, explicit assignment "
         "does; wrongly predicted names are detected because the predicted variable is the only one set; non-trivial = "
         ">= 1 bound field with a non-empty variable and >= 1 unbound or unset field; distinct = distinct case content")
-REQUIRED = ("second_build_after_environment_change", "family:bytes", "style:auto", "style:getitem", "style:dotted", "list_item_bound_checked", "list_item_document_names_bound_field",
+REQUIRED = ("loads_with_undecodable_values_for_bound_fields", "variables_rejected_by_validator_callback:boom",
+            "second_build_after_environment_change", "family:bytes", "style:auto", "style:getitem", "style:dotted", "list_item_bound_checked", "list_item_document_names_bound_field",
             "setting:ctype-True", "setting:ctype-named", "constructed_ok", "bound_values_checked", "unbound_defaults_checked", "invalid_variable_rejected",
             "loads_do_not_override_checked", "loads_set_unbound_checked", "assignment_overrides_checked",
             "setting:schema-auto", "setting:schema-named", "setting:schema-disabled", "setting:field-auto",
@@ -56,6 +57,10 @@ def gen_node(rng, depth, counter, used):
             s = rng.choice(["VFX_NAMED_%d", "vfx_named_%d", "VFX_NAMED_%d"]) % counter[0]
         if s is not None:
             f["params"]["env"] = s
+        if rng.random() < 0.06:
+            # a field-level validator callback that rejects everything, with a ValueError or with another exception type
+            f["params"]["validator"] = rng.choice(["fail", "boom"])
+            f["params"].pop("default", None)
         fields.append(f)
     if depth > 0:
         for key in keys[n:n + rng.choice([0, 1, 1, 2])]:
@@ -116,7 +121,7 @@ def draw_environ(rng, root):
     naming(root, crossing)
     for path, node, name in names:
         if name and environ.get(name) and ("[]" in path or path in crossing):
-            if model.accepts(node, environ[name], gen.GEN_ENV)[0] is not True:
+            if model.accepts(node, environ[name], gen.GEN_ENV)[0] is not True or node.get("params", {}).get("validator"):
                 del environ[name]
     # decoys: plausible but wrong names for fields the model says are unbound - they must have no effect
     taken = {n for _p, _nd, n in names if n}
@@ -142,8 +147,25 @@ def generate(rng, ctx):
     # the process environment changes before a second configuration is built from the SAME schema object
     environ2 = draw_environ(rng, root) if rng.random() < 0.6 else None
     tree = gen.tree_for(rng, root, gen.GEN_ENV, valid=True, partial=0.3)
+    _drop_validator_fields(root, tree)
     return {"schema": root, "environ": environ, "environ2": environ2, "tree": tree, "fmt": rng.choice(["json", "yaml", "pickle", "bson", "xml"]),
             "assign": rng.random()}
+
+
+def _drop_validator_fields(node, tree):
+    for ch in model.fields_of(node)["fields"]:
+        k = ch["key"]
+        if k not in tree:
+            continue
+        if ch["kind"] in ("schema", "ctype"):
+            if isinstance(tree[k], dict):
+                _drop_validator_fields(ch, tree[k])
+        elif ch.get("params", {}).get("validator"):
+            del tree[k]
+        elif ch["family"] == "list" and ch.get("item") and ch["item"]["kind"] != "field" and isinstance(tree[k], list):
+            for it in tree[k]:
+                if isinstance(it, dict):
+                    _drop_validator_fields(ch["item"], it)
 
 
 def probes(ctx):
@@ -309,7 +331,13 @@ def _round(case, ctx, res, cc, root, names, built, environ, label):
     for path, node, name in names:
         if name and environ.get(name):
             ok, norm = model.accepts(node, environ[name], env)
-            if ok is True:
+            if ok is True and node.get("params", {}).get("validator"):
+                # the field's own validator callback rejects everything (some with an exception that is not a ValueError)
+                if "[]" in path or path in crossing:
+                    return True
+                invalid.append((path, node, name))
+                res.count("variables_rejected_by_validator_callback:" + node["params"]["validator"])
+            elif ok is True:
                 bound[path] = (node, name, norm)
             elif ok is False and "[]" not in path and path not in crossing:
                 invalid.append((path, node, name))
@@ -363,8 +391,40 @@ def _round(case, ctx, res, cc, root, names, built, environ, label):
             return False
         if not _check_lists(res, cfg, root, tree, "", bound, env, label + how, case):
             return False
+    # a document may carry, for a field the environment overrides, a value that cannot even be decoded / validated:
+    # it is ignored like any other value for that field
+    tree2, spoiled = copy.deepcopy(tree), 0
+    BAD = {"int": "not-a-number", "port": "not-a-number", "float": "not-a-number", "bool": "maybe", "ipv4": "999.1.1.1", "url": 5,
+           "host": "bad host!", "loglevel": "nolevel", "str": 12345, "bytes": "zz-not-encoded-\u00e9"}
+    for path, (node, name, norm) in list(bound.items()):
+        if "[]" in path or node["family"] not in BAD or spoiled >= 2:
+            continue
+        if model.accepts_disk(node, BAD[node["family"]], env)[0] is not False:
+            continue
+        holder, ok_path = tree2, True
+        for seg in path.split(".")[:-1]:
+            nxt = holder.get(seg)
+            if nxt is None:
+                nxt = holder[seg] = {}
+            if not isinstance(nxt, dict):
+                ok_path = False
+                break
+            holder = nxt
+        if ok_path:
+            holder[path.split(".")[-1]] = BAD[node["family"]]
+            spoiled += 1
+    if spoiled:
+        res.count("loads_with_undecodable_values_for_bound_fields")
+        try:
+            cfg.load_tree(copy.deepcopy(tree2))
+        except Exception as exc:
+            res.viol("M-env", "load-fails-on-overridden-value", label + "a document whose only bad values belong to fields the environment "
+                     "overrides (%r) failed to load: %s: %s" % ({p: environ[b[1]] for p, b in bound.items()}, type(exc).__name__, str(exc)[:150]))
+            return False
+        if not _check_values(res, cfg, names, bound, loaded, label + "load_tree(bad values for bound fields)", case):
+            return False
     # explicit assignment beats both
-    for path, (node, name, norm) in [kv for kv in bound.items() if "[]" not in kv[0]][:3]:
+    for path, (node, name, norm) in [kv for kv in bound.items() if "[]" not in kv[0] and not kv[1][0].get("params", {}).get("validator")][:3]:
         v = None
         for cand in gen.candidates(ctx.cache.setdefault("rng", __import__("random").Random(5)), node, 12, env):
             ok, n2 = model.accepts(node, cand, env)
